@@ -766,12 +766,71 @@ def getter_side_effect(model: Model, fn: FunctionInfo) -> list[Lint]:
     return out
 
 
+def format_on_interpolated(model: Model, fn: FunctionInfo) -> list[Lint]:
+    """``f"{x} ... " "... {y}".format(y=..)``: adjacent literals are ONE string, so ``.format`` runs over the text
+    the f-string half has just interpolated.  A value containing ``{`` / ``}`` is re-read as a replacement field:
+    IndexError / KeyError / ValueError from a line that only meant to build a message - in an exception class this
+    replaces the error being raised by a foreign one.  (Also ``(f"..." + "...").format(..)`` and ``%`` on an
+    f-string.)"""
+    out: list[Lint] = []
+
+    def interpolates(e) -> bool:
+        if isinstance(e, ast.JoinedStr):
+            return any(isinstance(v, ast.FormattedValue) for v in e.values)
+        if isinstance(e, ast.BinOp) and isinstance(e.op, ast.Add):
+            return interpolates(e.left) or interpolates(e.right)
+        return False
+
+    for n in ast.walk(fn.node):
+        if isinstance(n, ast.Call) and isinstance(n.func, ast.Attribute) and n.func.attr in ("format", "format_map") and interpolates(n.func.value):
+            out.append(Lint("format-on-interpolated", fn, n.lineno, "format", f"`{ast.unparse(n)[:70]}`: str.format is applied to a string that already contains interpolated run-time text (adjacent literals form one string): braces in that text are read as replacement fields, so the call raises IndexError / KeyError / ValueError for inputs such as '{{}}' or '{{id}}' - where this builds an exception message, callers get that error instead of the library's"))
+        elif isinstance(n, ast.BinOp) and isinstance(n.op, ast.Mod) and interpolates(n.left):
+            out.append(Lint("format-on-interpolated", fn, n.lineno, "%", f"`{ast.unparse(n)[:70]}`: the % operator is applied to a string that already contains interpolated run-time text: a '%' in that text is read as a conversion"))
+    return out
+
+
+_GLOBAL_SETTERS = {
+    "csv.field_size_limit": "the csv module's field size limit (shared by every reader in the process - file_compress / file_expand included)",
+    "sys.setrecursionlimit": "the interpreter's recursion limit",
+    "locale.setlocale": "the process locale",
+    "os.chdir": "the working directory (relative paths given to the loaders resolve differently)",
+    "socket.setdefaulttimeout": "the default socket timeout",
+    "warnings.simplefilter": "the global warnings filter",
+    "warnings.filterwarnings": "the global warnings filter",
+    "random.seed": "the global random state",
+}
+
+
+def process_global_setting(model: Model, fn: FunctionInfo) -> list[Lint]:
+    """A library function that changes a PROCESS-WIDE setting and does not put it back (no ``finally`` that calls the
+    same setter again, not inside ``warnings.catch_warnings()``): every later call of unrelated functions in the
+    same process runs under the new setting - behaviour that depends on what was called before."""
+    out: list[Lint] = []
+    for n in ast.walk(fn.node):
+        if not isinstance(n, ast.Call) or not n.args:
+            continue
+        name = ast.unparse(n.func)
+        key = next((k for k in _GLOBAL_SETTERS if name == k or name.endswith("." + k)), None)
+        if key is None:
+            continue
+        restored = False
+        for t in ast.walk(fn.node):
+            if isinstance(t, ast.Try) and t.finalbody and any(isinstance(c, ast.Call) and ast.unparse(c.func) == name for st in t.finalbody for c in ast.walk(st)):
+                restored = True
+            if isinstance(t, ast.With) and any("catch_warnings" in ast.unparse(i.context_expr) for i in t.items) and key.startswith("warnings."):
+                restored = True
+        if not restored:
+            out.append(Lint("process-global-setting", fn, n.lineno, key, f"`{ast.unparse(n)[:60]}` changes {_GLOBAL_SETTERS[key]} and nothing in {fn.name} restores it: after one call of {fn.name} every other function of the process runs under the new value - a file operation that handled a table before now fails on it, depending on what was called earlier"))
+    return out
+
+
 def scan(model: Model, files: set[str] | None = None) -> tuple[list[Lint], int]:
     """All lints for the functions defined in ``files`` (relative paths under src/curies; None = everything)."""
     out: list[Lint] = []
     n = 0
     _one_shot_producers(model)
     for fn in model.functions.values():
+        out += process_global_setting(model, fn)  # process-wide: whichever file it sits in
         if files is not None and fn.module.relpath not in files:
             continue
         n += 1
@@ -786,4 +845,5 @@ def scan(model: Model, files: set[str] | None = None) -> tuple[list[Lint], int]:
         out += split_unpack(model, fn)
         out += strip_charset(model, fn)
         out += getter_side_effect(model, fn)
+        out += format_on_interpolated(model, fn)
     return out, n
